@@ -1,7 +1,7 @@
 (* C17 — MPS files are read as the problem they describe.
    Property theorems only; each is closed by [exact] of a lemma of the development
    (model: theories/Mps.v, specification: theories/MpsSpec.v, proofs: theories/MpsProofs.v). *)
-Require Import Ommx.Num Ommx.Poly Ommx.Msg Ommx.Tree Ommx.Mps Ommx.MpsSpec Ommx.MpsProofs Ommx.RunC17.
+Require Import Ommx.Num Ommx.Poly Ommx.Msg Ommx.Tree Ommx.Mps Ommx.MpsSpec Ommx.MpsProofs Ommx.RunC17 Ommx.MpsRoundTrip.
 From Coq Require Import String Ascii.
 Open Scope string_scope.
 Open Scope list_scope.
@@ -225,6 +225,28 @@ Example C17_nonvacuous :
   | Err _ => False
   end.
 Proof. vm_compute. repeat split; reflexivity. Qed.
+
+(* reading as a theorem (Tier B): for EVERY well-formed abstract MPS model (token names, distinct row
+   and column names, declared rows, non-empty columns without repeated rows, RANGES on E/L/G rows
+   with R <> 0, canonical OMMX id tags, no NaN bound, every number a terminating decimal of fewer
+   than 64 fractional digits) rendered under EVERY layout (3- or 5-field lines, tabs, comments,
+   blank lines, OBJSENSE inline or on its own line), the reader model loads the text and the loaded
+   instance is the problem [meaning M] by names: sense, variables (names, kinds, bounds, distinct
+   ids), objective terms and constant, constraints (row table incl. the RANGES rows), problem name
+   -- in the propositional form [represents] and in the form of the comparator the correspondence
+   uses ([match_spec ... = None]).  No assumption on the number printer / parser remains. *)
+Theorem C17_load_render : forall ly M, wf_model_dec M = true ->
+  exists I, load_lines (render ly M) = Ok I /\ represents I (meaning M).
+Proof. exact load_render_represents_decimal. Qed.
+Print Assumptions C17_load_render.
+
+Theorem C17_load_render_comparator : forall ly M, wf_model_dec M = true ->
+  exists I, load_lines (render ly M) = Ok I /\ match_spec I (meaning M) = None.
+Proof. exact load_render_match_spec_decimal. Qed.
+Print Assumptions C17_load_render_comparator.
+
+Example C17_load_render_nonvacuous : wf_model_dec MpsRoundTrip.ex_model = true /\ wf_model_dec ex_model_tagged = true.
+Proof. split; [exact ex_model_wf_dec|exact ex_model_tagged_wf_dec]. Qed.
 
 (* the comparator is not vacuous either: a wrong sign on the G row is detected *)
 Example C17_comparator_detects :
